@@ -16,7 +16,7 @@ SB_OP(traj)
 {
     auto v = unhex(t[3]);
     sb_trajectory_t traj;
-    memset(&traj, 0, sizeof(traj));
+    memset(&traj, SBH_FILL, sizeof(traj));
     ExactBuf* view = nullptr;
     sb_error_t rc;
     if (t[2] == "o") {
@@ -44,8 +44,8 @@ SB_OP(traj)
         if (k == 'p' || k == 'v' || k == 'a') {
             float tt = tokf(q.substr(1));
             sb_vector3_with_yaw_t r, rf;
-            memset(&r, 0, sizeof(r));
-            memset(&rf, 0, sizeof(rf));
+            memset(&r, SBH_FILL, sizeof(r));
+            memset(&rf, SBH_FILL, sizeof(rf));
             sb_trajectory_player_t fresh;
             sb_trajectory_player_init(&fresh, &traj);
             sb_error_t qrc, frc;
@@ -93,7 +93,7 @@ SB_OP(traj)
             sb_trajectory_stats_calculator_destroy(&calc);
         } else if (k == 's' || k == 'e') {
             sb_vector3_with_yaw_t r;
-            memset(&r, 0, sizeof(r));
+            memset(&r, SBH_FILL, sizeof(r));
             sb_error_t qrc = k == 's' ? sb_trajectory_get_start_position(&traj, &r) : sb_trajectory_get_end_position(&traj, &r);
             add(out, std::to_string((int)qrc) + "," + vec(r));
         } else if (k == 'n' || k == 'w') {
@@ -115,7 +115,7 @@ SB_OP(yawq)
 {
     auto v = unhex(t[2]);
     sb_yaw_control_t ctrl;
-    memset(&ctrl, 0, sizeof(ctrl));
+    memset(&ctrl, SBH_FILL, sizeof(ctrl));
     ExactBuf view(v);
     sb_error_t rc = sb_yaw_control_init_from_buffer(&ctrl, view.p, view.n);
     add(out, (long long)rc);
